@@ -18,10 +18,6 @@ def sowerGetsExtra (batchCounter remainder : Int) : Bool := decide (batchCounter
 def sowerFlush (counter batchsize : Int) (extraBatch : Bool) : Bool :=
   decide (counter = batchsize + (if extraBatch then 1 else 0))
 
--- cropping.py : Reaper.__init__._load
-def reaperDefaultSize (batchsize i remainder : Int) : Int :=
-  batchsize + (if decide (i ≤ remainder) then 1 else 0)
-
 -- cropping.py : Crop.is_ready_to_reap
 def isReady (numResults numSown : Int) : Bool := decide (numResults > 0) && decide (numResults = numSown)
 
